@@ -430,6 +430,56 @@ theorem cluster_plain_errors_returned (e : Env) (cc rt : Bool) (r : Err) (rest :
   unfold clDo
   rcases h with h | h | h | h <;> subst h <;> simp [refreshMode]
 
+/-- a command that is neither read-only nor marked retryable is never re-sent by cluster `do`,
+    except after MOVED / ASK / errConnExpired -/
+theorem cluster_non_retryable_never_resent (e : Env) (script : List Err) (a c : Nat) :
+    ∀ t ∈ clResends e true false script a c, t.1 = .connExpired ∨ t.1 = .moved ∨ t.1 = .ask := by
+  intro ⟨r, a', c'⟩ ht
+  by_cases hx : r = .connExpired
+  · exact Or.inl hx
+  · by_cases hm : r = .moved
+    · exact Or.inr (Or.inl hm)
+    · by_cases hk : r = .ask
+      · exact Or.inr (Or.inr hk)
+      · have := (cluster_retry_requires e true false script a c r a' c' ht hx hm hk).2.1 rfl
+        simp at this
+
+private theorem clLabels_length (r : Option Nat) (l : List Bool) (i : Nat) (b : Bool) :
+    (clLabels r l i b).length = l.length := by
+  induction l generalizing i b with
+  | nil => simp [clLabels]
+  | cons x rest ih => simp [clLabels, ih]
+
+/-- **the connection's membership in the topology never justifies a re-send.** Whatever connection call a
+    topology refresh removes the command's node at (`retireAt`, any or none), the retry decisions of
+    cluster `do` are the same: a refresh only changes WHERE a justified re-send goes (`N` instead of `H`),
+    the number of sends stays 1 + the justified re-sends, and for a non-retryable command these are only
+    MOVED / ASK / errConnExpired re-sends. (In particular a transport / ErrClosing error on a connection
+    that a refresh retired does not make a write eligible for a second send.) -/
+theorem cluster_retired_conn_gives_no_extra_send (e : Env) (retireAt : Option Nat) (cc rt : Bool)
+    (script : List Err) (a c : Nat) :
+    (clLabels retireAt (clDo e cc rt script a c false).sends 1 false).length =
+      1 + (clResends e cc rt script a c).length ∧
+    (cc = true → rt = false → ∀ t ∈ clResends e cc rt script a c,
+      t.1 = .connExpired ∨ t.1 = .moved ∨ t.1 = .ask) := by
+  refine ⟨by rw [clLabels_length, cl_sends_eq], ?_⟩
+  intro hcc hrt
+  subst hcc; subst hrt
+  exact cluster_non_retryable_never_resent e script a c
+
+/-- `clusterClient.Nodes()`: the per-node client retries iff the cluster client does (`!DisableRetry`),
+    and carries `DisableCache` unchanged — the two flags are not interchangeable -/
+theorem node_client_flags (disableRetry disableCache : Bool) :
+    nodeClientFlags disableRetry disableCache = (!disableRetry, disableCache) ∧
+    nodeClientUsesCacheCalls disableRetry disableCache = !disableCache := ⟨rfl, rfl⟩
+
+/-- **disable_retry_disables for per-node clients**: with DisableRetry, whatever DisableCache is, a command
+    sent through `Nodes()[addr]` is never re-sent except after errConnExpired -/
+theorem node_client_disable_retry_disables (e : Env) (dc cc rt : Bool) (script : List Err) (a c : Nat)
+    (he : e.retry = (nodeClientFlags true dc).1) :
+    ∀ t ∈ seqResends e cc rt script a c, t.1 = .connExpired :=
+  seq_disable_retry_disables e cc rt script a c (by rw [he]; rfl)
+
 /-! ### cluster: DoMulti and DoMultiCache -/
 
 /-- why member `p'` is in the map of the next round: it was there already, or member `p` got reply `r`
